@@ -35,6 +35,16 @@ RefMenu == {<<1, 2>>, <<1, 2, 3>>, <<1, 2, 3, 1>>, <<1, 3, 2, 1>>, <<2, 3>>, <<3
             <<1, 9, 2>>, <<9, 1, 2, 3, 9>>, <<1, 2, 9, 8, 1>>, <<1, 1>>, <<2, 3, 1, 2>>, <<1, 2, 3, 8, 1>>, <<8, 9>>, << >>}
 
 N(i, loc, tags, meta) == [id |-> i, xy |-> IF loc THEN P(i) ELSE Zero, tags |-> tags, meta |-> meta]
+\* Where a way node's coordinates can come from is decided per way NODE: the way node itself may carry them
+\* (annotated, mask[k] = TRUE) and / or the node element of that id may be in the data set - both, either, or neither.
+\* WM takes the annotation mask of the way (one BOOLEAN per ref); W annotates all refs or none.
+MaskKinds == {"none", "all", "first", "rest", "odd", "last"}
+MaskOf(kind, n) == [k \in 1 .. n |-> CASE kind = "none" -> FALSE [] kind = "all" -> TRUE [] kind = "first" -> k = 1
+                                          [] kind = "rest" -> k > 1 [] kind = "odd" -> k % 2 = 1 [] kind = "last" -> k = n]
+AllMasks(n) == [1 .. n -> BOOLEAN]
+WM(i, refs, mask, tags, meta) ==
+  [id |-> i, refs |-> [k \in DOMAIN refs |-> IF mask[k] THEN <<refs[k], P(refs[k])[1], P(refs[k])[2]>> ELSE <<refs[k], 0, 0>>],
+   tags |-> tags, meta |-> meta]
 W(i, refs, ann, tags, meta) ==
   [id |-> i, refs |-> [k \in DOMAIN refs |-> IF ann THEN <<refs[k], P(refs[k])[1], P(refs[k])[2]>> ELSE <<refs[k], 0, 0>>],
    tags |-> tags, meta |-> meta]
@@ -75,7 +85,16 @@ F2 ==
   LET pres == IF Thorough THEN {<<p1, p2, p3>> : p1 \in {"y", "n"}, p2 \in {"y", "n", "0"}, p3 \in {"y", "n"}}
               ELSE {<<"y", "y", "y">>, <<"n", "0", "y">>}
       nodes(p) == FlattenSeq([i \in 1 .. 3 |-> IF p[i] = "y" THEN << Plain(i) >> ELSE IF p[i] = "0" THEN << N(i, FALSE, TNone, MVer) >> ELSE << >>])
-  IN {DS("F2", nodes(p), << W(1, refs, ann, tags, IF ann THEN MPart ELSE M0) >>, << >>) :
+      \* partially annotated ways: thorough every mask of every ref shape, quick three kinds of mask
+      partial == IF Thorough
+                 THEN UNION {{<<refs, m>> : m \in AllMasks(Len(refs))} : refs \in RefMenu}
+                 ELSE {<<refs, MaskOf(k, Len(refs))>> : refs \in RefMenu, k \in {"first", "rest", "odd"}}
+      ppres == IF Thorough THEN {<<"y", "y", "y">>, <<"n", "0", "y">>, <<"y", "n", "y">>, <<"y", "y", "n">>} ELSE pres
+  IN {DS("F2", nodes(p), << WM(1, rm[1], rm[2], tags, MVer) >>, << >>) :
+         p \in ppres, rm \in partial,
+         tags \in {TNone, << <<"building", "yes">> >>} \cup (IF Thorough THEN {<< <<"highway", "pedestrian">>, <<"area", "yes">> >>} ELSE {})}
+     \cup
+     {DS("F2", nodes(p), << W(1, refs, ann, tags, IF ann THEN MPart ELSE M0) >>, << >>) :
          p \in pres, refs \in RefMenu, ann \in BOOLEAN,
          tags \in IF Thorough THEN WayTagMenu ELSE WayTagMenu \ {<< <<"source", "s">> >>, << <<"building", "">>, <<"source", "">> >>}}
 
@@ -206,7 +225,23 @@ IdTriples ==
               Ids("over40", "neg", "top40"), Ids("i31", "at40", "i32"), Ids("top40", "i32", "over40")}
 F8 == {[b EXCEPT !.ids = t] : b \in IdBases, t \in IdTriples}
 
-Families == F1 \cup F2 \cup F3 \cup F4a \cup F4b \cup F5 \cup F6 \cup F7 \cup F8
+\* partially annotated ways as route members and as multipolygon rings (all node elements present)
+F3m ==
+  {DS("F3", << Plain(1), Plain(2), Plain(3) >>,
+      << WM(1, pr[1], MaskOf(k1, Len(pr[1])), TNone, M0), WM(2, pr[2], MaskOf(k2, Len(pr[2])), TNone, MTime) >>,
+      << R(1, "route", TNone, mem, MFull) >>) :
+     pr \in RoutePairs, mem \in RouteMembers,
+     k1 \in IF Thorough THEN MaskKinds ELSE {"first"}, k2 \in IF Thorough THEN {"none", "first", "rest"} ELSE {"none"}}
+F4m ==
+  {DS("F4", << Plain(1), Plain(2), Plain(3) >>,
+      << WM(1, refs, MaskOf(k1, 4), t1, MVer), WM(2, <<1, 3, 2, 1>>, MaskOf(k2, 4), TNone, M0) >>,
+      << R(1, "multipolygon", ex, mem, MTime) >>) :
+     refs \in {<<1, 2, 3, 1>>, <<1, 3, 2, 1>>}, k1 \in {"first", "rest"}, k2 \in {"none", "first"},
+     t1 \in {TNone, << <<"building", "yes">> >>}, ex \in IF Thorough THEN {TNone, << <<"name", "r">> >>} ELSE {TNone},
+     mem \in {<< M("way", 1, "outer") >>, << M("way", 1, "outer"), M("way", 2, "inner") >>,
+              << M("way", 1, "outer"), M("way", 2, "outer") >>, << M("way", 2, "inner"), M("way", 1, "inner") >>}}
+
+Families == F3m \cup F4m \cup F1 \cup F2 \cup F3 \cup F4a \cup F4b \cup F5 \cup F6 \cup F7 \cup F8
 
 \* the full product space, sampled
 MemberAll == [t : {"node"}, ref : {1, 2, 3, 9}, role : {"", "stop"}] \cup
@@ -220,16 +255,16 @@ NodeSpace == [nabs : 0 .. 5,            \* 1..3: that node is absent, otherwise 
               n2loc : BOOLEAN, n2tags : NodeTagMenu, n2meta : MetaMenu,
               n3loc : BOOLEAN, n3tags : NodeTagMenu, n3meta : MetaMenu]
 WaySpace  == [wabs : 0 .. 3,            \* 1..2: that way is absent, otherwise both present
-              w1refs : RefMenu, w1tags : WayTagMenu, w1meta : MetaMenu, w1ann : BOOLEAN,
-              w2refs : RefMenu, w2tags : WayTagMenu, w2meta : MetaMenu, w2ann : BOOLEAN]
+              w1refs : RefMenu, w1tags : WayTagMenu, w1meta : MetaMenu, w1ann : MaskKinds,
+              w2refs : RefMenu, w2tags : WayTagMenu, w2meta : MetaMenu, w2ann : MaskKinds]
 RelSpace  == [hn : 0 .. 2,              \* 0: the relation is absent
               kind : RelKinds, extra : RelExtraMenu, meta : MetaMenu,
               len : 0 .. 3, m1 : MemberAll, m2 : MemberAll, m3 : MemberAll]
 MkNodes(x) == (IF x.nabs # 1 THEN << N(1, x.n1loc, x.n1tags, x.n1meta) >> ELSE << >>) \o
               (IF x.nabs # 2 THEN << N(2, x.n2loc, x.n2tags, x.n2meta) >> ELSE << >>) \o
               (IF x.nabs # 3 THEN << N(3, x.n3loc, x.n3tags, x.n3meta) >> ELSE << >>)
-MkWays(x)  == (IF x.wabs # 1 THEN << W(1, x.w1refs, x.w1ann, x.w1tags, x.w1meta) >> ELSE << >>) \o
-              (IF x.wabs # 2 THEN << W(2, x.w2refs, x.w2ann, x.w2tags, x.w2meta) >> ELSE << >>)
+MkWays(x)  == (IF x.wabs # 1 THEN << WM(1, x.w1refs, MaskOf(x.w1ann, Len(x.w1refs)), x.w1tags, x.w1meta) >> ELSE << >>) \o
+              (IF x.wabs # 2 THEN << WM(2, x.w2refs, MaskOf(x.w2ann, Len(x.w2refs)), x.w2tags, x.w2meta) >> ELSE << >>)
 MkRel(i, x) == IF x.hn > 0 THEN << R(i, x.kind, x.extra, SubSeq(<<x.m1, x.m2, x.m3>>, 1, x.len), x.meta) >> ELSE << >>
 Sample ==
   IF SampleN = 0 THEN {}
